@@ -56,6 +56,20 @@ def gen(rng, tier):
         dp = rng.choice([0, 1, 5, 253, 254, 255, rng.randrange(0, 256)])   # child depth 255 is legal, 256 is not
         yield Case("childpriv", [c, hx(k.to_bytes(32, "big")), hx(cc), dp, rand_index(rng)],
                    ("child" if dp < 255 else "neg-depth256") if cls < 4 else "neg-parent")
+    # directed: seeds whose master key (HMAC left half under the curve's own key string) starts with one or two zero bytes
+    import hmac as _hmac, hashlib as _hl
+    keys = {"secp256k1": b"Bitcoin seed", "nist256p1": b"Nist256p1 seed", "ed25519": b"ed25519 seed", "ed25519blake2b": b"ed25519 seed"}
+    for c in CURVES:
+        found = 0
+        for j in range(3000):
+            seed = rng.getrandbits(256).to_bytes(32, "big")
+            il = _hmac.new(keys[c], seed, _hl.sha512).digest()[:32]
+            if il[0] == 0:
+                yield Case("master", [c, hx(seed)], "master-leading-zero")
+                yield Case("derive", [c, hx(seed), nats([2**31 + 1]), 1], "master-leading-zero")
+                found += 1
+                if found == (2 if tier == "quick" else 10):
+                    break
     # directed: children whose HMAC left half IL, or whose child private key, starts with a zero byte (fixed-width conversions)
     import hmac, hashlib
     for i in range(8 if tier == "quick" else 200):
